@@ -72,6 +72,9 @@ func (c *c06Case) witness(idx int, o *c06Obs) map[string]any {
 	if c.pipe != nil {
 		w["pipelined"] = fmt.Sprintf("%+v", *c.pipe)
 	}
+	if c.layer == 4 {
+		w["session_capabilities"] = c.sess.caps()
+	}
 	if o != nil {
 		st := []string{}
 		for k, v := range o.state {
